@@ -141,4 +141,40 @@ Proof.
     unfold sent. rewrite cmp_sub by exact Hc. ring.
 Qed.
 
+
+(* QueueGroundwater.distribute: the same books, without the flooding step *)
+Theorem qg_distribute_books (n n' : qnode S) :
+  star_ok (qn_outs S n) -> qledger (qn_t S n) ->
+  wet (vsum (s_act (qt_s (qn_t S n))) (bget (l_b (qt_l (qn_t S n))) 0)) ->
+  qg_distribute S P maxiter n = Some n' ->
+  star_ok (qn_outs S n') /\ qledger (qn_t S n') /\
+  forall c, conserved c ->
+    cmp c (s_sto (qt_s (qn_t S n))) - cmp c (s_sto (qt_s (qn_t S n'))) == sumvin c (qn_outs S n') - sumvin c (qn_outs S n).
+Proof.
+  intros Hok L Hwet Hrun. unfold qg_distribute in Hrun.
+  pose proof (l_update_qt (qt_l (qn_t S n)) (qt_s (qn_t S n))) as HU.
+  assert (Eact : s_act (snd (fst (l_update qts qt_port (qt_l (qn_t S n)) (qt_s (qn_t S n))))) =
+                 vsum (s_act (qt_s (qn_t S n))) (bget (l_b (qt_l (qn_t S n))) 0)) by reflexivity.
+  destruct (l_update qts qt_port (qt_l (qn_t S n)) (qt_s (qn_t S n))) as [[l1 s1] bk].
+  destruct HU as (_ & Hs & _ & _ & _ & Hd2 & _ & Hq). cbn [fst snd] in Eact.
+  set (t1 := mkQT s1 l1) in *.
+  assert (L1 : qledger t1).
+  { intros c Hc. unfold t1; cbn [qt_s qt_l]. rewrite Hs, Hd2. pose proof (Hq c Hc). pose proof (L c Hc). lra. }
+  assert (W1 : wet (s_act s1)) by (rewrite Eact; exact Hwet).
+  destruct (push_distributed S P maxiter None (qn_outs S n) (s_act s1)) as [[[outs1 remaining] msg1]|] eqn:E1; [|discriminate].
+  destruct (push_distributed_spec S P K wet_replies maxiter None (qn_outs S n) (s_act s1) outs1 remaining msg1 Hok W1 E1)
+    as (Hok1 & _ & R1 & V1 & _).
+  set (sent := vsub (s_act s1) remaining) in *.
+  assert (Hsent : forall k, conserved k -> 0 <= cmp k sent <= cmp k (s_act (qt_s t1))).
+  { intros k Hk. unfold sent, t1; cbn [qt_s]. rewrite cmp_sub by exact Hk. pose proof (R1 k Hk). lra. }
+  pose proof (qt_pull_exact_ledger t1 sent L1) as L2.
+  assert (Sto2 : forall c, conserved c -> cmp c (s_sto (qt_s (fst (qt_pull_exact t1 sent)))) == cmp c (s_sto s1) - cmp c sent).
+  { intros c Hc. pose proof (pull_exact_within t1 sent c Hc Hsent) as E.
+    unfold qt_pull_exact in *. cbn [fst snd qt_s s_sto] in *. rewrite cmp_sub by exact Hc. unfold t1 in *. cbn [qt_s] in *. rewrite E. reflexivity. }
+  destruct (qt_pull_exact t1 sent) as [t2 reply2]. cbn [fst snd] in *.
+  inversion Hrun; subst n'. unfold qn_with. cbn [qn_t qn_outs].
+  split; [exact Hok1|]. split; [exact L2|].
+  intros c Hc. rewrite (Sto2 c Hc), (V1 c Hc), Hs. unfold sent. rewrite cmp_sub by exact Hc. ring.
+Qed.
+
 End SewerLaws.
